@@ -36,7 +36,18 @@ type batchProp[C any] struct {
 	// OnNotBuilt is called for units whose package failed to build.
 	OnNotBuilt func(c C, res *batch.Result, r *ev.Recorder) *Failure
 	Vet        bool
+	// Twin optionally renders a second unit per case (built in the same batch); Check finds it
+	// in currentTwin.
+	Twin func(c C, name string) (batch.Unit, bool)
 }
+
+type twinInfo struct {
+	res *batch.Result
+	run runFunc
+}
+
+// currentTwin is set by the batch runner while Check runs (checks are sequential).
+var currentTwin *twinInfo
 
 // runFunc executes VerifRun(entry, src, arg) of the unit; hang/died report abnormal termination.
 type runFunc func(entry int, src, arg string) (out string, panicMsg string, err error)
@@ -119,6 +130,17 @@ func (p *batchProp[C]) run(t *testing.T) {
 			units = append(units, u)
 			idx = append(idx, i)
 		}
+		// Twin units (e.g. the same grammar without error recovery) follow the primary ones.
+		nPrimary := len(units)
+		twinOf := map[int]int{}
+		if p.Twin != nil {
+			for k := 0; k < nPrimary; k++ {
+				if u2, ok := p.Twin(cases[idx[k]], units[k].Name+"t"); ok {
+					twinOf[k] = len(units)
+					units = append(units, u2)
+				}
+			}
+		}
 		results := make([]batch.Result, len(units))
 		var wg sync.WaitGroup
 		sem := make(chan struct{}, 8)
@@ -133,7 +155,7 @@ func (p *batchProp[C]) run(t *testing.T) {
 		}
 		wg.Wait()
 		if p.OnGenerated != nil {
-			for i := range units {
+			for i := 0; i < nPrimary; i++ {
 				c := cases[idx[i]]
 				f := guard(func() *Failure { return p.OnGenerated(c, &results[i], rec) })
 				if f = filter(f); f != nil {
@@ -181,11 +203,18 @@ func (p *batchProp[C]) run(t *testing.T) {
 				}
 			}
 		}
-		for i := range units {
+		for i := 0; i < nPrimary; i++ {
 			c := cases[idx[i]]
 			res := &results[i]
 			if res.Files == nil || res.GenErr != nil || res.CompileErr != nil {
 				continue
+			}
+			currentTwin = nil
+			if ti, ok := twinOf[i]; ok && results[ti].Built {
+				tname := units[ti].Name
+				currentTwin = &twinInfo{res: &results[ti], run: func(entry int, src, arg string) (string, string, error) {
+					return runner.Run(tname, entry, src, arg)
+				}}
 			}
 			if !res.Built {
 				if p.OnNotBuilt != nil {
